@@ -258,10 +258,14 @@ def dispatch_copy(net, opt):
         n = node[net.gen.at[idx, "bus"]]
         if n in vnode:
             n2.gen.at[idx, "vm_pu"] = vnode[n]
+    angles = (not ac) or opt.get("calculate_voltage_angles", True)
     for idx in n2.ext_grid.index:
-        n = node[net.ext_grid.at[idx, "bus"]]
-        if n in vnode:
-            n2.ext_grid.at[idx, "vm_pu"] = vnode[n]
+        b = net.ext_grid.at[idx, "bus"]
+        if node[b] in vnode:
+            n2.ext_grid.at[idx, "vm_pu"] = vnode[node[b]]
+        # only the first ext_grid is the angle reference of the OPF, the angle at further ext_grids is part of the dispatch
+        if angles and element_active(net, "ext_grid", idx, alive):
+            n2.ext_grid.at[idx, "va_degree"] = float(net.res_bus.at[b, "va_degree"])
     for idx in n2.dcline.index:
         d = net.dcline.loc[idx]
         if d.in_service and alive(d.from_bus) and alive(d.to_bus):
